@@ -314,6 +314,9 @@ def gen_cases(rng, tier):
                 "opts": _gen_opts(r, bucket), "out": _gen_out(r)}
         if case["out"]["kind"] == "wstdout":
             case["opts"]["list"] = False  # `-l -w -` interleaves the binary stream header with the listing
+        if r.chance(12):
+            case["prior"] = r.choice([["-s", "r.k >= 4"], ["-s", "False"], ["-F", "k"], ["-X", "s"], ["-c", "1"], ["--skip", "2"],
+                                      ["-s", "r.k == 1", "-F", "k,s"]])
         cases.append(case)
     # one very large record (a 17 MiB value) in the middle of an intact source: it and everything after it come out;
     # the projection keeps the observed output small
@@ -828,6 +831,14 @@ def run_real(case):
                 argv += ["--split", str(out["split"]), "--suffix-length", str(out["suffix"])]
         if writer is not None:
             argv += ["-w", writer]
+        if case.get("prior"):
+            # the same process ran rdump over the SAME sources before, with other options (output discarded): what this
+            # invocation does depends on its own command line only
+            pd = tempfile.mkdtemp(prefix="frv-c16p-")
+            try:
+                _call_rdump(list(paths) + list(case["prior"]) + ["-w", os.path.join(pd, "prior.records")])
+            finally:
+                shutil.rmtree(pd, ignore_errors=True)
         status, stdout, uris = _call_rdump(argv)
         obs = {"status": status, "counts": counts, "fails": fails, "uris": [u.replace(d, "<D>") for u in uris],
                "argv": [a.replace(d, "<D>") for a in argv[len(paths):]], "writer": writer.replace(d, "<D>") if writer else None}
